@@ -140,6 +140,10 @@ PoolCompl(st, rg) == [kind |-> "compl", occ |-> NoneOcc, seq |-> 0, marked |-> F
 InitHist == [mm \in Machines |-> [last |-> MD(mm).init]]
 \* ghost bookkeeping used only by the property formulas (Props.tla)
 LedgerKeys == {<<mm, st>> : mm \in Machines, st \in UNION {StatesOf(m2) : m2 \in Machines}} \cup {<<Def.root, Def.root>>}
+ParentOf(mm) == CHOOSE pp \in Machines : mm \in StatesOf(pp)
+OwnKey(mm) == IF mm = Def.root THEN <<Def.root, Def.root>> ELSE <<ParentOf(mm), mm>>
+\* is the entry counter behind ledger key kk saved by Boost.Serialization ? (states / front-ends that opt in through do_serialize)
+SerKey(kk) == IF kk[2] \in Machines THEN MD(kk[2]).selfser ELSE kk[1] \in Machines /\ kk[2] \in StatesOf(kk[1]) /\ kk[2] \in MD(kk[1]).ser
 QPayloads(sq) == {sq[k].occ.p : k \in 1..Len(sq)}
 \* number of stored occurrences whose event type counts its live objects (C20)
 CountedIn(sq) == Cardinality({k \in 1..Len(sq) : sq[k].occ.t \in Def.counted})
@@ -160,6 +164,7 @@ variables
    gvmemo = [gg \in Def.guards |-> "u"],
    obs = <<>>, wasreset = FALSE, path = <<>>, nothrow = FALSE,
    ledger = [ii \in Insts |-> [kk \in LedgerKeys |-> 0]],      \* entries minus exits per (machine, state)
+   encnt = [ii \in Insts |-> [kk \in LedgerKeys |-> 0]],       \* number of entries per (machine, state): the datum the instrumented states carry
    sawexc = [ii \in Insts |-> FALSE],
    stored = [ii \in Insts |-> [mm \in Machines |-> <<>>]],     \* payloads put into a queue / the pool, in order
    dispd = [ii \in Insts |-> [mm \in Machines |-> <<>>]],      \* payloads dispatched, in order
@@ -241,7 +246,7 @@ CB1: cbn := cbn + 1;
         };
      };
      obs := Append(obs, [k |-> c_kind, i |-> c_i, m |-> c_m, id |-> c_id, e |-> c_occ.t, p |-> c_occ.p, r |-> c_res, x |-> c_sid]);
-     if (c_kind = "en") { ledger[c_i][<<c_m, c_id>>] := ledger[c_i][<<c_m, c_id>>] + 1; }
+     if (c_kind = "en") { ledger[c_i][<<c_m, c_id>>] := ledger[c_i][<<c_m, c_id>>] + 1; encnt[c_i][<<c_m, c_id>>] := encnt[c_i][<<c_m, c_id>>] + 1; }
      else if (c_kind = "ex") { ledger[c_i][<<c_m, c_id>>] := ledger[c_i][<<c_m, c_id>>] - 1; };
 CB2: if (c_d.op = "throw") {
         exc := TRUE; sawexc[c_i] := TRUE;
@@ -657,7 +662,7 @@ M0: while (TRUE) {
           seqcnt := [ii \in Insts |-> [mm \in Machines |-> 0]];
           hist := [ii \in Insts |-> InitHist];
           exc := FALSE; ret := 0; cbn := 0; obs := <<>>;
-          ledger := [ii \in Insts |-> [kk \in LedgerKeys |-> 0]];
+          ledger := [ii \in Insts |-> [kk \in LedgerKeys |-> 0]]; encnt := [ii \in Insts |-> [kk \in LedgerKeys |-> 0]];
           sawexc := [ii \in Insts |-> FALSE];
           stored := [ii \in Insts |-> [mm \in Machines |-> <<>>]];
           dispd := [ii \in Insts |-> [mm \in Machines |-> <<>>]];
@@ -726,6 +731,24 @@ M0: while (TRUE) {
              else { call PoolM(cc.i, Def.root, IF cc.op = "drain1" THEN 1 ELSE 0); };
           };
        } or {
+          \* Boost.Serialization round trip (back / back11): instance j is a freshly constructed machine into which the archive of i is loaded.
+          \* Saved: active ids at every level, history, the processing flag, data of the states / front-ends that opt in.  Queues are not saved.
+          with (cc \in IF Mode = "trace" THEN (IF HasLine /\ CurLine.k = "call" /\ CurLine.op = "saveload" THEN {[i |-> CurLine.i, j |-> CurLine.j]} ELSE {})
+                       ELSE {cx \in {[i |-> ii, j |-> jj] : ii \in {kk \in Insts : running[kk][Def.root] /\ "saveload" \in Apis /\ IsB}, jj \in Insts} : cx.i # cx.j /\ ~used[cx.j]}) {
+             if (Mode = "trace") { l := l + 1; } else { await ncalls < MaxCalls; path := Append(path, [call |-> "saveload", i |-> cc.i, e |-> "", p |-> cc.j]); };
+             ncalls := ncalls + 1; cbn := 0; obs := <<>>; wasreset := FALSE;
+             lastcall := [op |-> "saveload", i |-> cc.j, e |-> "", p |-> cc.i];
+             pre := [blocked |-> FALSE, quiet |-> TRUE, act |-> active[cc.i], all |-> <<active, mq, dq, pool, hist, running>>];
+             active[cc.j] := active[cc.i]; running[cc.j] := running[cc.i]; processing[cc.j] := processing[cc.i];
+             mq[cc.j] := [mm \in Machines |-> <<>>]; dq[cc.j] := [mm \in Machines |-> <<>>]; curseq[cc.j] := [mm \in Machines |-> 0];
+             pool[cc.j] := [mm \in Machines |-> <<>>]; seqcnt[cc.j] := [mm \in Machines |-> 0]; hist[cc.j] := hist[cc.i];
+             ledger[cc.j] := ledger[cc.i]; encnt[cc.j] := [kk \in LedgerKeys |-> IF SerKey(kk) THEN encnt[cc.i][kk] ELSE 0];
+             sawexc[cc.j] := sawexc[cc.i]; stored[cc.j] := [mm \in Machines |-> <<>>]; dispd[cc.j] := [mm \in Machines |-> <<>>];
+             defd[cc.j] := {}; dropped[cc.j] := {}; defseq[cc.j] := <<>>; hdl[cc.j] := <<>>;
+             used[cc.j] := TRUE;
+             ret := 0;
+          };
+       } or {
           \* destruction of a machine object: everything it still holds goes away with it
           with (ii \in IF Mode = "trace" THEN (IF HasLine /\ CurLine.k = "call" /\ CurLine.op = "destroy" THEN {CurLine.i} ELSE {}) ELSE {}) {
              l := l + 1; ncalls := ncalls + 1; cbn := 0; obs := <<>>; wasreset := FALSE;
@@ -733,7 +756,7 @@ M0: while (TRUE) {
              running[ii] := [mm \in Machines |-> FALSE]; processing[ii] := [mm \in Machines |-> FALSE];
              mq[ii] := [mm \in Machines |-> <<>>]; dq[ii] := [mm \in Machines |-> <<>>]; pool[ii] := [mm \in Machines |-> <<>>];
              active[ii] := [mm \in Machines |-> MD(mm).init]; hist[ii] := InitHist; curseq[ii] := [mm \in Machines |-> 0]; seqcnt[ii] := [mm \in Machines |-> 0];
-             ledger[ii] := [kk \in LedgerKeys |-> 0]; used[ii] := FALSE;
+             ledger[ii] := [kk \in LedgerKeys |-> 0]; encnt[ii] := [kk \in LedgerKeys |-> 0]; used[ii] := FALSE;
              ret := 0;
           };
        } or {
@@ -748,7 +771,7 @@ M0: while (TRUE) {
              active[cc.j] := active[cc.i]; running[cc.j] := running[cc.i]; processing[cc.j] := processing[cc.i];
              mq[cc.j] := mq[cc.i]; dq[cc.j] := dq[cc.i]; curseq[cc.j] := curseq[cc.i];      \* closures keep the object they were bound to
              pool[cc.j] := pool[cc.i]; seqcnt[cc.j] := seqcnt[cc.i]; hist[cc.j] := hist[cc.i];
-             ledger[cc.j] := ledger[cc.i]; sawexc[cc.j] := sawexc[cc.i]; stored[cc.j] := stored[cc.i]; dispd[cc.j] := dispd[cc.i];
+             ledger[cc.j] := ledger[cc.i]; encnt[cc.j] := encnt[cc.i]; sawexc[cc.j] := sawexc[cc.i]; stored[cc.j] := stored[cc.i]; dispd[cc.j] := dispd[cc.i];
              defd[cc.j] := defd[cc.i]; dropped[cc.j] := dropped[cc.i]; defseq[cc.j] := defseq[cc.i]; hdl[cc.j] := hdl[cc.i];
              used[cc.j] := TRUE;
              ret := 0;
@@ -765,6 +788,8 @@ M1:    if (Mode = "trace" /\ ~wasreset) {
                     THEN /\ DOMAIN CurLine.st = ActiveTree(lastcall.i, Def.root)
                          /\ \A mm \in ActiveTree(lastcall.i, Def.root) : CurLine.st[mm] = Ids(mm, active[lastcall.i][mm])
                          /\ CurLine.fl = FlagVec(lastcall.i, Def.root)
+                         /\ \A mm \in ActiveTree(lastcall.i, Def.root) :
+                               CurLine.dt[mm] = <<encnt[lastcall.i][OwnKey(mm)]>> \o [kk \in 1..Len(MD(mm).dorder) |-> encnt[lastcall.i][<<mm, MD(mm).dorder[kk]>>]]
                          /\ \A mm \in ActiveTree(lastcall.i, Def.root) :
                                IF IsB THEN CurLine.q[mm] = <<Len(mq[lastcall.i][mm]), Len(dq[lastcall.i][mm])>>
                                ELSE CurLine.q[mm] = <<Cardinality({kk \in 1..Len(pool[lastcall.i][mm]) : ~pool[lastcall.i][mm][kk].marked})>>
